@@ -24,13 +24,16 @@ ANCHORS = ['pycaption.srt:SRTReader._srttomicro', 'pycaption.srt:SRTReader._find
 REQUIRE = {'docs_srt': 20, 'docs_webvtt': 20, 'docs_dfxp': 20, 'docs_sami': 20, 'docs_microdvd': 20,
            'feature_hour>=24': 10, 'feature_frames': 5, 'feature_dur': 5, 'feature_shift': 5,
            'feature_fps-header': 5, 'feature_blank-sync': 5, 'feature_no-fraction': 3,
-           'feature_strict-timing': 5, 'stamps_compared': 500}
+           'feature_strict-timing': 5, 'stamps_compared': 500,
+           'caption_init_rejections_checked': 5, 'feature_inline-lang-attribute': 3}
 NONTRIVIAL_FEATURES = {'hour>=24', 'hour>=1', 'no-fraction', 'no-hours', 'frames', 'dur', 'shift',
                        'fps-header', 'two-p-one-sync', 'empty-cue', 'strict-timing'}
 
 
 def cases(ctx):
     rng = ctx.rng('c01')
+    if ctx.shard == 0:
+        yield {'format': 'caption-init', 'features': ['caption-init'], 'doc': '', 'expected': []}
     fmts = sorted(docs.GENERATORS)
     for i in range(ctx.budget(12000, 400000)):
         fmt = fmts[i % len(fmts)]
@@ -42,9 +45,40 @@ def nontrivial(case):
                or f.startswith('offset-') for f in case['features'])
 
 
+def _check_caption_init(ctx):
+    """Caption rejects non-numeric times (and accepts int / float / Fraction-like numbers)."""
+    from fractions import Fraction
+    from pycaption.base import Caption, CaptionNode
+    from pycaption.exceptions import CaptionReadTimingError, CaptionReadError
+    fails = []
+    nodes = [CaptionNode.create_text('x')]
+    for bad in ('1', None, '00:00:01.000', [1], b'1'):
+        for args in ((bad, 2), (1, bad)):
+            ctx.count('caption_init_rejections_checked')
+            try:
+                Caption(args[0], args[1], nodes)
+                fails.append({'what': 'Caption accepted a non-numeric time', 'args': repr(args)})
+            except CaptionReadTimingError:
+                pass
+            except Exception as e:
+                fails.append({'what': 'Caption raised the wrong error for a non-numeric time', 'error': repr(e)})
+    for good in (0, 1, 2.5, Fraction(1, 3), 10 ** 12):
+        c = Caption(good, good, nodes)
+        if c.start != good or c.end != good:
+            fails.append({'what': 'Caption changed a numeric time', 'value': repr(good)})
+    try:
+        Caption(0, 1, [])
+        fails.append({'what': 'Caption accepted an empty node list'})
+    except CaptionReadError:
+        pass
+    return fails
+
+
 def check(case, ctx):
     import pycaption
     fmt = case['format']
+    if fmt == 'caption-init':
+        return _check_caption_init(ctx)
     ctx.count('docs_' + fmt)
     for f in case['features']:
         ctx.count('feature_' + f)
